@@ -1,0 +1,24 @@
+//go:build verif
+// +build verif
+
+package hc
+
+import "github.com/brutella/hc/hap"
+
+// VerifPort returns the port the transport's server listens on ("" before Start created it).
+func (t *ipTransport) VerifPort() string {
+	if s := t.server; s != nil {
+		return s.Port()
+	}
+	return ""
+}
+
+// VerifTXT returns the mDNS TXT records the transport currently advertises.
+func (t *ipTransport) VerifTXT() map[string]string {
+	return t.config.txtRecords()
+}
+
+// VerifContext returns the hap context (sessions per connection) of the transport.
+func (t *ipTransport) VerifContext() hap.Context {
+	return t.context
+}
